@@ -34,7 +34,8 @@ CLAUSES_EXACT = ["C_ExactNoException", "C_ExactEdges", "C_ExactBoundary", "C_Exa
                  "C_ExactCellAreas", "C_ExactReference"]
 CLAUSES_GEN = ["C_GenOrientation", "C_GenIncidence", "C_GenBoundaryFlags", "C_GenBoundaryIsOutline", "C_GenEuler",
                "C_GenTiling", "C_GenCellAreas", "C_GenDualLengths", "C_GenEdgeVectors", "C_GenTerminals",
-               "C_GenAnalytic"]
+               "C_GenAnalytic", "C_GenAnalyticEuler", "C_GenAnalyticCorners", "C_GenAnalyticBoundaryOnOutline",
+               "C_GenAnalyticSitesInDomain", "C_GenAnalyticArea", "C_GenAnalyticTerminals"]
 
 
 def trace_cfg(invariants=()):
@@ -175,13 +176,66 @@ def exact_traces(tdgl, args, tmp):
 # ------------------------------------------------------------------ generated meshes
 
 
+EXPLICIT = ("cshape", "verts")      # outlines whose vertices the harness computes itself (no tdgl primitive involved)
+
+
+def explicit_points(spec):
+    """The vertices of an outline THE HARNESS specifies point by point (they are what the user hands to tdgl.Polygon):
+      cshape : an annular sector (C shape): outer arc r_out (cos t, sin t), t = -half .. half in n points, then the inner arc
+               r_in (cos t, sin t) backwards; non-convex; its centroid lies in the opening when `half` is large
+      verts  : an explicit vertex list (L, U, T, plus ... shapes)
+    both turned counter-clockwise by `angle` degrees about their local origin and then translated by `center`."""
+    if spec["kind"] == "cshape":
+        t = np.linspace(-float(spec["half"]), float(spec["half"]), int(spec["n"]))
+        v = np.vstack([float(spec["r_out"]) * np.c_[np.cos(t), np.sin(t)], float(spec["r_in"]) * np.c_[np.cos(t[::-1]), np.sin(t[::-1])]])
+    elif spec["kind"] == "verts":
+        v = np.array(spec["verts"], dtype=float)
+    else:
+        raise ValueError(spec["kind"])
+    th = math.radians(spec.get("angle", 0))
+    R = np.array([[math.cos(th), -math.sin(th)], [math.sin(th), math.cos(th)]])
+    return v @ R.T + np.array(spec.get("center", (0, 0)), dtype=float)
+
+
+def shoelace(v):
+    """signed area and centroid of a closed outline (vertex array, not repeated), by the shoelace formulas"""
+    x, y = np.asarray(v, dtype=float).T
+    x1, y1 = np.roll(x, -1), np.roll(y, -1)
+    cr = x * y1 - x1 * y
+    a = cr.sum() / 2
+    return a, np.array([((x + x1) * cr).sum(), ((y + y1) * cr).sum()]) / (6 * a)
+
+
+def signed_distance(v, xy):
+    """distance of the point xy to the outline v (closed polygon), negative inside (even-odd crossing number)"""
+    v = np.asarray(v, dtype=float)
+    p = np.asarray(xy, dtype=float)
+    a, b = v, np.roll(v, -1, axis=0)
+    ab = b - a
+    t = np.clip(((p - a) * ab).sum(axis=1) / np.maximum((ab * ab).sum(axis=1), 1e-300), 0, 1)
+    d = float(np.sqrt((((a + t[:, None] * ab) - p) ** 2).sum(axis=1)).min())
+    cond = (a[:, 1] > p[1]) != (b[:, 1] > p[1])
+    with np.errstate(divide="ignore", invalid="ignore"):
+        xint = a[:, 0] + (p[1] - a[:, 1]) * ab[:, 0] / ab[:, 1]
+    inside = bool(np.count_nonzero(cond & (p[0] < xint)) % 2)
+    return -d if inside else d
+
+
+def centroid_outside(spec):
+    """does the centroid of an explicit outline lie outside the outline itself (only a non-convex outline can do that)"""
+    v = explicit_points(spec)
+    return bool(signed_distance(v, shoelace(v)[1]) > 0)
+
+
 def _poly(tdgl, spec, name):
-    """A Polygon from a small description (documented primitives only)."""
+    """A Polygon from a small description (documented primitives, or an explicit vertex list made by the harness)."""
     from tdgl.geometry import box, circle, ellipse
 
     k = spec["kind"]
     c = tuple(spec.get("center", (0, 0)))
-    if k == "box":
+    if k in EXPLICIT:
+        pts = explicit_points(spec)
+    elif k == "box":
         pts = box(spec["w"], spec["h"], points=spec.get("points", 40), center=c, angle=spec.get("angle", 0))
     elif k == "circle":
         pts = circle(spec["r"], points=spec.get("points", 24), center=c)
@@ -221,9 +275,15 @@ def _poly(tdgl, spec, name):
 
 class Analytic:
     """A plain primitive as the USER specified it, from first principles (no tdgl code): a w x h rectangle or an a, b
-    ellipse (n vertices) translated to `center` and then turned counter-clockwise by `angle` about (0, 0)."""
+    ellipse (n vertices) translated to `center` and then turned counter-clockwise by `angle` about (0, 0); or an outline
+    given vertex by vertex (kind "poly": C-shaped annular sectors, L / U / plus shapes - possibly NON-CONVEX), whose
+    reference is that very vertex list (shoelace area, crossing-number membership, distance to its segments)."""
 
     def __init__(self, spec):
+        if spec["kind"] in EXPLICIT:      # the outline is the vertex list the harness made itself
+            self.kind = "poly"
+            self.V = explicit_points(spec)
+            return
         self.kind = "ellipse" if spec["kind"] in ("ellipse", "circle") else "box"
         self.c = np.array(spec.get("center", (0, 0)), dtype=float)
         th = math.radians(spec.get("angle", 0) if spec["kind"] != "circle" else 0)
@@ -237,12 +297,14 @@ class Analytic:
 
     @staticmethod
     def plain(spec):
-        return spec["kind"] in ("box", "ellipse", "circle") and not any(spec.get(k) for k in ("union", "minus", "resample"))
+        return spec["kind"] in ("box", "ellipse", "circle") + EXPLICIT and not any(spec.get(k) for k in ("union", "minus", "resample"))
 
     def local(self, xy):        # undo the tilt, then the centring
         return np.asarray(xy, dtype=float) @ self.R - self.c
 
     def vertices(self):
+        if self.kind == "poly":
+            return self.V
         if self.kind == "box":
             v = np.array([(-self.w / 2, -self.h / 2), (self.w / 2, -self.h / 2), (self.w / 2, self.h / 2), (-self.w / 2, self.h / 2)])
         else:
@@ -251,10 +313,14 @@ class Analytic:
         return (v + self.c) @ self.R.T
 
     def area(self):
+        if self.kind == "poly":
+            return abs(shoelace(self.V)[0])
         return self.w * self.h if self.kind == "box" else 0.5 * self.n * self.a * self.b * math.sin(2 * math.pi / self.n)
 
     def residual(self, xy, U):
-        """rectangle: signed distance to the outline in quanta; ellipse: (x/a)^2 + (y/b)^2 - 1 in units of 1e-6"""
+        """rectangle, vertex list: signed distance to the outline in quanta; ellipse: (x/a)^2 + (y/b)^2 - 1 in units of 1e-6"""
+        if self.kind == "poly":
+            return max(-10 ** 9, min(10 ** 9, int(round(signed_distance(self.V, xy) * U))))
         x, y = self.local(xy)
         if self.kind == "box":
             dx, dy = abs(x) - self.w / 2, abs(y) - self.h / 2
@@ -263,7 +329,7 @@ class Analytic:
         return max(-10 ** 9, min(10 ** 9, int(round(((x / self.a) ** 2 + (y / self.b) ** 2 - 1) * 10 ** 6))))
 
     def band(self):
-        if self.kind == "box":
+        if self.kind in ("box", "poly"):
             return -2, 2
         return int(math.floor((math.cos(math.pi / self.n) ** 2 - 1) * 10 ** 6)) - 50, 50
 
@@ -275,9 +341,10 @@ def analytic_record(args, pts, bs, U, q, terms_n):
 
     specs = [args["film"]] + list(args.get("holes", []))
     if not all(Analytic.plain(s) for s in specs):
-        return {"have": False, "corners": [], "bres": [], "lo": [], "hi": [], "ain": [], "area2": 0, "tcover": []}
+        return {"have": False, "corners": [], "bres": [], "lo": [], "hi": [], "ain": [], "area2": 0, "tcover": [], "nholes": 0}
     shapes = [Analytic(s) for s in specs]
-    corners = [q(v) for s in shapes if s.kind == "box" for v in s.vertices()]
+    # vertices the user gave explicitly (the 4 corners of a box; every vertex of an explicit outline) must be boundary sites
+    corners = [q(v) for s in shapes if s.kind in ("box", "poly") for v in s.vertices()]
     bands = [s.band() for s in shapes]
     bres = [{"i": i + 1, "res": [s.residual(pts[i], U) for s in shapes]} for i in range(len(pts)) if bs[i]]
     ain = []
@@ -291,7 +358,7 @@ def analytic_record(args, pts, bs, U, q, terms_n):
         ring = LinearRing(shapes[0].vertices())
         tcover = [int(round(ring.intersection(SPolygon(Analytic(t).vertices())).length * U)) for t in tspecs]
     return {"have": True, "corners": corners, "bres": bres, "lo": [b[0] for b in bands], "hi": [b[1] for b in bands], "ain": ain,
-            "area2": int(round(2 * area * U * U)), "tcover": tcover}
+            "area2": int(round(2 * area * U * U)), "tcover": tcover, "nholes": len(specs) - 1}
 
 
 def gen_trace(tdgl, args, tmp):
@@ -386,7 +453,7 @@ def observe_device(dev, key, full=True, spec=None):
     if not full:
         return g
     g["ANA"] = (analytic_record(spec, pts, g["BS"], U, q, len(terms)) if spec is not None
-                else {"have": False, "corners": [], "bres": [], "lo": [], "hi": [], "ain": [], "area2": 0, "tcover": []})
+                else {"have": False, "corners": [], "bres": [], "lo": [], "hi": [], "ain": [], "area2": 0, "tcover": [], "nholes": 0})
     # reference formulas on the device coordinates (length units); the code's areas are Device.areas
     redges, W, rarea, wc, ereg, _ = ref_cot(pts, tri)
     pos = {e: n for n, e in enumerate(redges)}
